@@ -473,3 +473,13 @@ def _replay_pt(model, ob):
         if pos != len(text):
             return {"confirmed": True, "function": "parse_template", "inputs": {"text": text}, "expected": f"cover up to {len(text)}", "observed": f"ends at {pos}"}
     return {"confirmed": False, "tried": cands}
+
+
+def _bounded_lexer(tier, repo):
+    from harness.bounded_lexer import run
+    return run(repo, maxlen=4 if tier == "thorough" else 3, procs=12)
+
+
+REG.bounded_check("bounded#token_stream_equals_the_quote_aware_stock_lexer", "C09", _bounded_lexer,
+                  note="the stock DebugLexer is trusted and A-RE-ESC assumed in the deductive part, and the verbatim interaction is not compared there: every source of <= 3 (thorough: 4) pieces out of 34 (text, newlines, {{ }}, {# #}, block tags with quoted strings incl. escapes and embedded %} / }} / newlines, multi-line tags, verbatim blocks, stray quotes, unterminated constructs) is lexed by the real parse_template and compared with a reference lexer written from the property")
+
